@@ -1,6 +1,7 @@
 import MmtkModel.Model.FreeList
 import MmtkModel.Spec.Runs
 import MmtkModel.Lemmas.FreeListFree
+import MmtkModel.Lemmas.FreeListNew
 /-!
 # C26 — Free lists allocate disjoint runs and coalesce back completely
 
@@ -31,9 +32,13 @@ table unchanged), `allocFromUnit_refines`, `free_refines` (coalesces exactly wit
 run length / ownership.  A concrete instance (`IntArrayFreeList::new(6, 3, 2)`, `exRel`) shows the
 hypotheses satisfiable.
 
-Not proved (what is left): (i) that `IntArrayFreeList::new(units, grain, heads)` /
-`RawMemoryFreeList` growth establish `Abs` with a `Fresh` abstract state *for all* parameters (only
-the instance above is checked; the constructors are covered by the differential); (ii) `abs` is a
+`new_refines_single`: `IntArrayFreeList::new(N, N, heads)` (a single initial run) establishes `Abs` with a
+`Fresh` abstract state, for all `1 ≤ N ≤ MAX_UNITS`, `1 ≤ heads ≤ 128`.
+
+Not proved (what is left): (i) that `IntArrayFreeList::new(units, grain, heads)` with `grain < units`
+(several initial runs: the fill loop) and `RawMemoryFreeList` growth establish `Abs` with a `Fresh`
+abstract state for all parameters (for `grain < units` only the instance `new(6, 3, 2)` is checked;
+the constructors are covered by the differential); (ii) `abs` is a
 relation, not a function — the ghost `touched` and the owner of a free run (= the head whose list
 reaches it) are not fields of the table; (iii) unit numbers are unbounded `Int` in the model: the
 `i32` wrap is excluded by `units ≤ MAX_UNITS` in `Rel`, not modelled; (iv) `alloc_from_unit` on a
@@ -731,6 +736,20 @@ theorem cross_head_coalesce_double_allocates :
         let (_, y) ← alloc false t (-2) 10
         pure (a, b, m, x, y) : M _) = some (0, 5, 10, 0, 0) := by
   decide +kernel
+
+open Mmtk.Runs in
+/-- **new_refines_single.** `IntArrayFreeList::new(N, N, heads)` (one initial run: `grain = units`),
+for every `1 ≤ N ≤ MAX_UNITS` and `1 ≤ heads ≤ 128`, in both `debug` settings, returns `.ok` of a
+well-formed table that represents the fresh abstract state: all `N` units free on head 0's list in
+one run, nothing touched. -/
+theorem new_refines_single (debug : Bool) (N Hn : Nat) (hN : 1 ≤ N) (hNm : (N : Int) ≤ MAX_UNITS) (hH : 1 ≤ Hn)
+    (hH' : Hn ≤ 128) :
+    ∃ t0 a0, IntArray.new debug (N : Int) (N : Int) (Hn : Int) = .ok t0 ∧ Fresh a0 ∧ a0.units = N ∧
+      (∀ b, a0.cut b = false) ∧ Abs (Hn : Int) t0 a0 := by
+  obtain ⟨t0, a0, L, h1, h2, h3, h4, h5, h6⟩ := new_single debug N Hn hN hNm hH hH'
+  exact ⟨t0, a0, h1, ⟨h2.1, h2.2⟩, h3, h4, h6, L, h5⟩
+
+example : (1 : Nat) ≤ 4096 ∧ ((4096 : Nat) : Int) ≤ MAX_UNITS ∧ 1 ≤ 16 ∧ 16 ≤ 128 := by decide
 
 /-! ### the hypotheses are satisfiable: a concrete list and a two-step history -/
 
